@@ -407,4 +407,77 @@ func c09FileLock(c *Ctx, pkStore *packages.Package) {
 	if roots == 0 {
 		c.Fail(rule, "locker-root", token.NoPos, "no filelock.NewLocker call found in the module")
 	}
+	// the locker a store is given is a real one on every path: "several buf processes caching and reading the same
+	// module at once" are only kept apart by lock files, so a fallback to the no-op locker (taken, say, when the lock
+	// directory cannot be created) silently turns the guarantee off for that process.
+	handed := 0
+	for _, pk := range p.ModulePkgs() {
+		if strings.HasSuffix(pk.PkgPath, "_test") || strings.HasSuffix(pk.PkgPath, "pkg/filelock") {
+			continue
+		}
+		for _, sf := range p.SSAFuncsOf([]*packages.Package{pk}) {
+			for _, f := range allSSAFuncs(sf) {
+				for _, call := range callsIn(f) {
+					for i, a := range call.Call.Args {
+						if namedPath(a.Type()) != modPath+"/private/pkg/filelock.Locker" {
+							continue
+						}
+						if _, isParam := stripConv(a).(*ssa.Parameter); isParam {
+							continue // handed on: decided where it was made
+						}
+						handed++
+						var other []string
+						real := false
+						var walk func(v ssa.Value, seen map[ssa.Value]bool)
+						walk = func(v ssa.Value, seen map[ssa.Value]bool) {
+							v = stripConv(v)
+							if seen[v] {
+								return
+							}
+							seen[v] = true
+							switch x := v.(type) {
+							case *ssa.Phi:
+								for _, e := range x.Edges {
+									walk(e, seen)
+								}
+							case *ssa.Extract:
+								walk(x.Tuple, seen)
+							case *ssa.MakeInterface:
+								walk(x.X, seen)
+							case *ssa.Call:
+								if o := staticCalleeObj(&x.Call); o != nil && isFuncNamed(o, "private/pkg/filelock", "", "NewLocker") {
+									real = true
+								} else if o != nil {
+									other = append(other, funcIDFull(o))
+								} else {
+									other = append(other, "dynamic call")
+								}
+							case *ssa.UnOp:
+								// a local spilled to a cell (captured, or assigned in branches under a defer)
+								if al, ok := x.X.(*ssa.Alloc); ok && x.Op == token.MUL {
+									for _, st := range storesInto(al) {
+										walk(st, seen)
+									}
+								} else {
+									other = append(other, "load of "+x.X.Name())
+								}
+							case *ssa.Parameter:
+							default:
+								other = append(other, fmt.Sprintf("%T", v))
+							}
+						}
+						walk(a, map[ssa.Value]bool{})
+						who := "?"
+						if o := staticCalleeObj(call.Call); o != nil {
+							who = o.Name()
+						}
+						c.Ob(rule, fmt.Sprintf("%s/locker-real/%s#%d", ssaFuncName(f), who, i), call.Pos(), real && len(other) == 0, true, "the Locker handed to %s is the result of filelock.NewLocker on every path (%v); other origins: %v", who, real, uniq(other))
+					}
+				}
+			}
+		}
+	}
+	if handed == 0 {
+		c.Fail(rule, "locker-real", token.NoPos, "no call site handing a filelock.Locker to a store found")
+	}
 }
